@@ -323,28 +323,28 @@ Fixpoint memn (c : nat) (l : list nat) : bool :=
 Definition top_id (v : value) : nat :=
   match detach v with VC c => c | VSet i _ => i | VTup i _ => i | VRec i _ => i | VRef _ => 0 end.
 
-(* a deep copy into fresh cells (only used by the repaired configurations) *)
+(* a list traversal that threads the store *)
+Section MapSt.
+  Context {A B : Type} (f : store -> A -> B * store).
+  Fixpoint map_st (l : list A) (st : store) : list B * store :=
+    match l with
+    | [] => ([], st)
+    | a :: r => let '(b, s1) := f st a in let '(bs, s2) := map_st r s1 in (b :: bs, s2)
+    end.
+End MapSt.
+
+(* a deep copy into fresh cells (only used by the repaired configurations): Value::deep_copy of the patch *)
 Fixpoint copyv (st : store) (v : value) : value * store :=
   match v with
   | VC c => let '(c', st') := alloc (get c (cells st)) st in (VC c', st')
   | VSet _ l => let '(i, st') := fresh_id st in (VSet i l, st')
   | VTup _ l =>
       let '(i, st0) := fresh_id st in
-      let '(l', st') :=
-        (fix go (l : list value) (st : store) : list value * store :=
-           match l with
-           | [] => ([], st)
-           | w :: r => let '(w', s1) := copyv st w in let '(r', s2) := go r s1 in (w' :: r', s2)
-           end) l st0 in
+      let '(l', st') := map_st copyv l st0 in
       (VTup i l', st')
   | VRec _ l =>
       let '(i, st0) := fresh_id st in
-      let '(l', st') :=
-        (fix go (l : list (string * value)) (st : store) : list (string * value) * store :=
-           match l with
-           | [] => ([], st)
-           | (f, w) :: r => let '(w', s1) := copyv st w in let '(r', s2) := go r s1 in ((f, w') :: r', s2)
-           end) l st0 in
+      let '(l', st') := map_st (fun s p => match p with (f, w) => let '(w', s1) := copyv s w in ((f, w'), s1) end) l st0 in
       (VRec i l', st')
   | VRef w => copyv st w
   end.
